@@ -501,12 +501,12 @@ static unsigned nodeAddr(int k, int dev) { return M[k].addr[dev]; }
 
 // ---- library sends to the peer (RTS/CTS). fault: 0 none, else see below. returns true if the peer received everything
 enum { F_NONE, F_DROP_RTS, F_DROP_CTS, F_DUP_CTS, F_DROP_DT, F_DUP_DT, F_SWAP_DT, F_DROP_ACK, F_PEER_ABORT, F_NEVER, F_LATE, F_HOLD, F_FOREIGN, F_REORDER_CTS, F_COUNT };
-static bool txRtsTransfer(Rng &R, int dev, unsigned peer, unsigned long pgn, const std::vector<unsigned char> &pl, int fault, int grant /*0 = random per CTS*/) {
+static bool txRtsTransfer(Rng &R, int dev, unsigned peer, unsigned long pgn, const std::vector<unsigned char> &pl, int fault, int grant /*0 = random per CTS*/, int at = 0) {
   int k = cur; unsigned me = nodeAddr(k, dev); int npk = ((int)pl.size() + 6) / 7;
   sendTP(dev, pgn, peer, pl, (int)R.below(3));
   if (!lastRet || !seenCM(me, peer, 16)) return false;
   if (fault == F_DROP_RTS || fault == F_NEVER) { C.count("gen_never_answered"); return false; }
-  std::vector<unsigned char> got; int have = 0; int faultAt = (int)R.range(1, npk); bool faultDone = false; int rounds = 0;
+  std::vector<unsigned char> got; int have = 0; int faultAt = at ? at : (int)R.range(1, npk); bool faultDone = false; int rounds = 0;
   uint64_t limit = 50;
   while (have < npk && rounds++ < 300) {
     // answer delay
@@ -555,9 +555,9 @@ static bool txRtsTransfer(Rng &R, int dev, unsigned peer, unsigned long pgn, con
 
 // ---- the peer sends to the node (RTS/CTS when `to` is the node's address, BAM when to = 255)
 enum { G_NONE, G_DROP_DT, G_DUP_DT, G_SWAP_DT, G_DROP_RTS, G_DUP_RTS, G_STOP, G_ABORT, G_BATCH, G_COUNT };
-static bool rxTransfer(Rng &R, unsigned peer, unsigned to, unsigned long pgn, const std::vector<unsigned char> &pl, int fault) {
+static bool rxTransfer(Rng &R, unsigned peer, unsigned to, unsigned long pgn, const std::vector<unsigned char> &pl, int fault, int at = 0) {
   unsigned size = (unsigned)pl.size(); int npk = ((int)size + 6) / 7; bool bam = to == 255;
-  int faultAt = (int)R.range(1, npk); bool faultDone = false;
+  int faultAt = at ? at : (int)R.range(1, npk); bool faultDone = false;
   if (fault == G_DROP_RTS) C.count("gen_rx_drop_announce");
   else if (bam) rxBAM("rx", peer, size, (unsigned)npk, pgn); else rxRTS("rx", peer, to, size, (unsigned)npk, pgn);
   int window = npk; int next = 1;
@@ -611,6 +611,9 @@ static void generate(Rng &R, const char *fl) {
     for (int len : {222, 223, 224}) { std::vector<unsigned char> p = payload(R, len > 223 ? 223 : len); me = nodeAddr(0, 0);
       if (len <= 223) rxTransfer(R, PEER, me, 126996UL, p, G_NONE); else rxRTS("rx", PEER, me, (unsigned)len, 32, 126996UL); T(10); }
   }
+  C.sample("targeted: address loss during an RTS/CTS reception (C07:tp-cts-idev); 222/223/224-byte RTS (C10:rx-223)");
+  C.sample("sweep: library->peer RTS/CTS for every length 9..223 (grants 1,2,5,32,255,random); BAM for lengths 9..223 with poll cadences 1/10/50/51/random ms; peer->library for every length");
+  C.sample("two real nodes back to back over a loss-free channel, RTS/CTS and BAM, `expect` checks the delivery at the far end");
   // (1) library -> peer, RTS/CTS: every length, several grant sizes, no faults
   for (int len = 9; len <= 223; len += tierN(1, 1)) {
     if ((len - 9) % 24 == 0) resetNode(R, fl, "reset", (int)R.range(1, 3), 5, R.chance(1, 2) ? 1 : 2, 40);
@@ -640,7 +643,7 @@ static void generate(Rng &R, const char *fl) {
     T(R.below(15));
   }
   // (4) single faults, both roles; after every faulty transfer the clock passes the timeouts and a clean transfer must work
-  int nf = tierN(120, 1500);
+  int nf = tierN(250, 2500);
   for (int i = 0; i < nf; i++) {
     resetNode(R, fl, "reset", (int)R.range(1, 2), (int)R.range(1, 5), R.chance(1, 2) ? 1 : 2, R.chance(1, 8) ? 4 : 40);
     int dev = (int)R.below(M[0].nDev); unsigned me = nodeAddr(0, dev);
@@ -663,6 +666,29 @@ static void generate(Rng &R, const char *fl) {
       rxTransfer(R, PEER, to, pgn2, payload(R, (int)R.range(9, 100)), G_NONE);
     }
   }
+  // (4b) exhaustive small scope: every fault kind at every packet position of short transfers, both roles
+  for (int len : {16, 30, 50}) {
+    int npk = (len + 6) / 7;
+    for (int at = 1; at <= npk; at++) {
+      for (int fault = 1; fault < F_COUNT; fault++) {
+        resetNode(R, fl, "reset", 1, 3, 1, 40);
+        std::vector<unsigned char> pl = payload(R, len);
+        txRtsTransfer(R, 0, PEER, 126464UL, pl, fault, (int)R.range(1, 3), at);
+        for (int g = 0; g < 1300; g += 100) { T(100); X("poll"); }
+        txRtsTransfer(R, 0, PEER, R.chance(1, 2) ? 126464UL : 61184UL, payload(R, 20), F_NONE, 0);
+      }
+      for (int fault = 1; fault < G_COUNT; fault++) for (int bam = 0; bam < 2; bam++) {
+        resetNode(R, fl, "reset", 1, 3, 2, 40);
+        unsigned to = bam ? 255 : nodeAddr(0, 0);
+        rxTransfer(R, PEER, to, 126996UL, payload(R, len), fault, at);
+        if (R.chance(1, 2)) fpTraffic(R, 77, 129029UL, 20, 3);
+        for (int g = 0; g < 1300; g += 100) { T(100); X("poll"); }
+        rxTransfer(R, PEER, to, R.chance(1, 2) ? 126996UL : 126998UL, payload(R, 20), G_NONE);
+      }
+    }
+  }
+  C.count("exhaustive_fault_positions", 1);
+  C.sample("exhaustive: every fault kind (drop/dup/reorder of RTS, CTS, DT, ACK; abort; silence; late; hold; foreign control) at every packet position of 16/30/50-byte transfers, both roles, each followed by a clean transfer after 1.3 s");
   // (5) concurrent sessions: several sources towards the node, the node's own transfers, fast-packet traffic, small slot counts
   int nc = tierN(40, 400);
   for (int i = 0; i < nc; i++) {
